@@ -740,3 +740,82 @@ def while_to_for(fnode):
     fn.body = block(fn.body)
     ast.fix_missing_locations(fn)
     return fn
+
+
+def split_tuple_locals(fnode):
+    """(on a copy)  a = b = v            ->  b = v; a = v        (v an access path or a constant)
+                    t = (X, Y)           ->  t__0 = X; t__1 = Y   when t is bound once and only unpacked, iterated or indexed by a literal:
+                    for v in t: ...      ->  for v in (t__0, t__1): ...
+                    p, q = t             ->  p = t__0; q = t__1
+                    t[k]                 ->  t__k"""
+    import copy
+    fn = copy.deepcopy(fnode)
+    stores = {}
+    for n in ast.walk(fn):
+        if isinstance(n, ast.Name) and isinstance(n.ctx, ast.Store):
+            stores[n.id] = stores.get(n.id, 0) + 1
+    tuples = {}
+    for n in ast.walk(fn):
+        if isinstance(n, ast.Assign) and len(n.targets) == 1 and isinstance(n.targets[0], ast.Name) and stores.get(n.targets[0].id) == 1 and isinstance(n.value, ast.Tuple) \
+                and n.value.elts and not any(isinstance(e, ast.Starred) for e in n.value.elts):
+            name = n.targets[0].id
+            ok = True
+            for u in ast.walk(fn):
+                if isinstance(u, ast.Name) and u.id == name and isinstance(u.ctx, ast.Load):
+                    ok = ok and _tuple_use_ok(fn, u)
+            if ok:
+                tuples[name] = len(n.value.elts)
+
+    def part(name, k):
+        return ast.Name(id='%s__%d' % (name, k), ctx=ast.Load())
+
+    class T(ast.NodeTransformer):
+        def visit_Subscript(self, n):
+            self.generic_visit(n)
+            if isinstance(n.value, ast.Name) and n.value.id in tuples and isinstance(n.slice, ast.Constant) and isinstance(n.slice.value, int) and 0 <= n.slice.value < tuples[n.value.id]:
+                return ast.copy_location(part(n.value.id, n.slice.value), n)
+            return n
+
+        def visit_For(self, n):
+            self.generic_visit(n)
+            if isinstance(n.iter, ast.Name) and n.iter.id in tuples:
+                n.iter = ast.copy_location(ast.Tuple(elts=[part(n.iter.id, k) for k in range(tuples[n.iter.id])], ctx=ast.Load()), n.iter)
+            return n
+
+    def block(stmts):
+        out = []
+        for st in stmts:
+            for fld in ('body', 'orelse', 'finalbody'):
+                b = getattr(st, fld, None)
+                if isinstance(b, list) and b and isinstance(b[0], ast.stmt):
+                    setattr(st, fld, block(b))
+            if isinstance(st, ast.Assign) and len(st.targets) > 1 and all(isinstance(t, ast.Name) for t in st.targets) and isinstance(st.value, (ast.Name, ast.Attribute, ast.Constant)):
+                for t in reversed(st.targets):
+                    out.append(ast.copy_location(ast.Assign(targets=[t], value=copy.deepcopy(st.value)), st))
+                continue
+            if isinstance(st, ast.Assign) and len(st.targets) == 1 and isinstance(st.targets[0], ast.Name) and st.targets[0].id in tuples and isinstance(st.value, ast.Tuple):
+                for k, e in enumerate(st.value.elts):
+                    out.append(ast.copy_location(ast.Assign(targets=[ast.Name(id='%s__%d' % (st.targets[0].id, k), ctx=ast.Store())], value=e), st))
+                continue
+            if isinstance(st, ast.Assign) and len(st.targets) == 1 and isinstance(st.targets[0], ast.Tuple) and isinstance(st.value, ast.Name) and st.value.id in tuples \
+                    and len(st.targets[0].elts) == tuples[st.value.id] and all(isinstance(t, ast.Name) for t in st.targets[0].elts):
+                for k, t in enumerate(st.targets[0].elts):
+                    out.append(ast.copy_location(ast.Assign(targets=[t], value=part(st.value.id, k)), st))
+                continue
+            out.append(st)
+        return out
+    fn.body = block(fn.body)
+    fn = T().visit(fn)
+    ast.fix_missing_locations(fn)
+    return fn
+
+
+def _tuple_use_ok(fn, use):
+    for p in ast.walk(fn):
+        if isinstance(p, ast.For) and p.iter is use:
+            return True
+        if isinstance(p, ast.Assign) and p.value is use and len(p.targets) == 1 and isinstance(p.targets[0], ast.Tuple):
+            return True
+        if isinstance(p, ast.Subscript) and p.value is use and isinstance(p.slice, ast.Constant):
+            return True
+    return False
